@@ -75,6 +75,10 @@ def oracle_job(job):
             continue
         outs = {}
         for cap in CAPS:
+            if job.get("pre_packrat"):
+                # the documented way to switch: packrat was on (e.g. enabled by an imported module), then
+                # enable_left_recursion(force=True) - the result must not depend on that history
+                pp.ParserElement.enable_packrat()
             pp.ParserElement.enable_left_recursion(cap, force=True)
             try:
                 root = gram.prepare(gram.build(pp, job["prog"]), job["root"])
@@ -182,7 +186,7 @@ def run(ctx):
                        signature="indirect_left_recursion")
     ctx.count_cases("known-finding-witness", 1)
     # ---- correspondence + oracle on direct left recursion ---------------------------------------------
-    jobs, ojobs = [], []
+    jobs, ojobs, pjobs = [], [], []
     for i in range(ctx.budget(500, 4000)):
         rng = random.Random(f"C04-{ctx.seed}-lr-{i}")
         prog, root, it, itr, inputs, meta = gen_lr.direct(rng)
@@ -195,6 +199,10 @@ def run(ctx):
         ojobs.append(dict(prog=prog, root=root, it_prog=it, it_root=itr, inputs=inputs[:5], meta=meta, parse_all=True))
         if i % 3 == 0:
             ojobs.append(in_context(prog, root, it, itr, inputs, meta))
+        if i % 4 == 1:
+            ojobs.append(dict(prog=prog, root=root, it_prog=it, it_root=itr, inputs=inputs[:4], meta=meta, pre_packrat=True))
+        if i % 4 == 2:
+            pjobs.append(dict(prog=prog, root=root, inputs=inputs[:4] + [inputs[0] + " and " + inputs[1]]))
     corr_parse.run_jobs(ctx, "model(parseLR)-vs-real:direct-lr", jobs)
     mult = 4 if (ctx.broken and not ctx.fail_inputs) else 1
     for k in range(mult):
@@ -213,6 +221,15 @@ def run(ctx):
         for m in bad[:3]:
             ctx.fail_input("left-recursive grammar differs from its iterative equivalent", {k2: m[k2] for k2 in ("prog", "root", "input", "meta")},
                            m["expected"], m["actual"], theorem="C04 statement (LR-vs-iterative oracle)")
+    # ---- a left-recursive grammar's entry points do not depend on what was parsed before ------------------------
+    from . import c08
+    res = common.pmap(c08.prior_job, pjobs)
+    badp = [m for r_ in res for m in r_[1] if m["mode"][0] == "lr"]
+    ctx.count_cases("oracle:independent-of-earlier-calls", sum(r_[0] for r_ in res), outcomes={"mismatch": len(badp)})
+    for m in badp[:2]:
+        ctx.fail_input("a left-recursive grammar's entry point depends on what was parsed before",
+                       {"prior": True, **{k2: m[k2] for k2 in ("prog", "root", "input", "mode", "others")}}, m["expected"], m["actual"],
+                       theorem="C04 statement (every entry point starts from an empty memo)", how="harness.props.c08.prior_job")
     # ---- no base case ------------------------------------------------------------------------------------
     nb = [dict(prog=[["E", "Forward"], ["p", "Literal", "+"], ["n", "Word", "01"], ["s", "And", ["E", "p", "n"]], ["_", "<<=", "E", "s"]],
                root="E", inputs=["1+1", "1", "", "+1"]),
@@ -227,6 +244,10 @@ def run(ctx):
 
 
 def replay(data):
+    if data.get("replay_kind") == "failing-input" and data["case"].get("prior"):
+        from . import c08
+        c = data["case"]
+        return any(m["mode"][0] == "lr" for m in c08.prior_job(dict(prog=c["prog"], root=c["root"], inputs=[c["input"]] + [o for o in c["others"] if o != c["input"]]))[1])
     if data.get("replay_kind") == "failing-input":
         c = data["case"]
         if "meta" in c:
